@@ -42,7 +42,7 @@ FIELD_POOL = ['Ok', 'Fail', 'Error', 'Yes', 'No', 'f0', 'A', 'b', 'Busy']
 FEATURES = ['deep_ns', 'global_enc', 'shared_itf', 'empty_itf', 'no_ports', 'inout_mix',
             'out_many_formals', 'nested_enum', 'outer_enum', 'injected', 'same_name_siblings',
             'multi_id_ns', 'reopened_ns', 'system_enc', 'partial_spelling', 'distractors',
-            'many_ports', 'subint_reply', 'bool_reply', 'mc_ready', 'ref_extern', 'prefix_ports']
+            'many_ports', 'subint_reply', 'bool_reply', 'mc_ready', 'ref_extern', 'prefix_ports', 'mirror_ns']
 
 
 def _uniq(draw, pool, taken, n=1):
@@ -82,6 +82,15 @@ def shell_model(draw, force=None, max_ports=6, collide=False):  # pylint: disabl
             ext = draw(st.sampled_from(NS_POOL))
             if ext not in base:
                 scopes.append(base + (ext,))
+    mirror = None
+    if 'mirror_ns' in feats:
+        # two top-level namespaces with an identically named inner namespace: the same partially
+        # qualified spelling (Inner.T) denotes different declarations from the two sides
+        top_a = enc_scope[0] if enc_scope else 'Left'
+        top_m = [n for n in ('Mirror', 'Right', 'Other') if n != top_a][0]
+        inner = [n for n in ('Types', 'Sub', 'Hal') if n not in (top_a, top_m)][0]
+        mirror = (top_a, top_m, inner)
+        scopes += [(top_a,), (top_a, inner), (top_m,), (top_m, inner)]
     scopes = list(dict.fromkeys(scopes))
 
     names_in = {s: set() for s in scopes}  # names taken per scope (declarations and namespaces)
@@ -103,6 +112,15 @@ def shell_model(draw, force=None, max_ports=6, collide=False):  # pylint: disabl
             e['value'] = f'const ::xt::T{i}&'  # a reference-typed extern: only usable for in formals
         externs.append((sc, e))
         decls.append((sc, e))
+
+    if mirror:
+        top_a, top_m, inner = mirror
+        for k, top in enumerate((top_a, top_m)):
+            nm = 'T'
+            names_in[(top, inner)].add(nm)
+            e = {'k': 'extern', 'name': [nm], 'value': f'::xt::M{k}'}
+            externs.append(((top, inner), e))
+            decls.append(((top, inner), e))
 
     # ---- enums / subints outside interfaces
     enums = []
@@ -138,6 +156,15 @@ def shell_model(draw, force=None, max_ports=6, collide=False):  # pylint: disabl
                 _uniq(draw, FIELD_POOL, taken) for _ in range(draw(st.integers(1, 3)))]})
         interfaces.append((sc, itf))
         decls.append((sc, itf))
+
+    if mirror:
+        for top in mirror[:2]:
+            if 'IMir' not in names_in[(top,)]:
+                names_in[(top,)].add('IMir')
+                itf = {'k': 'interface', 'name': ['IMir'], 'types': [], 'events': [], 'mirror': True}
+                interfaces.append(((top,), itf))
+                decls.append(((top,), itf))
+        n_itf = len(interfaces)
 
     # ---- distractor declarations (never referenced)
     if 'distractors' in feats:
@@ -221,11 +248,19 @@ def shell_model(draw, force=None, max_ports=6, collide=False):  # pylint: disabl
                     ref = choose_ref((rk,), itf_fqn, 'partial_spelling' in feats)
                     if ref:
                         ev['ret'] = ref[1]
-            many = ('out_many_formals' in feats and not is_in) or ('inout_mix' in feats and is_in)
+            many = ('out_many_formals' in feats and not is_in) or ('inout_mix' in feats and is_in) \
+                or itf.get('mirror')
             nf = draw(st.integers(2, 4)) if many else draw(st.integers(0, 3))
             f_taken = set()
             for k in range(nf):
                 ref = choose_ref(('extern',), itf_fqn, 'partial_spelling' in feats)
+                if itf.get('mirror') and k == 0:
+                    # Inner.T, looked up from the interface's own side
+                    want = tuple(sc) + (mirror[2], 'T')
+                    for d in flat_decls():
+                        if d['fqn'] == want and len(lookup(flat_decls(), (mirror[2], 'T'),
+                                                           itf_fqn)) == 1:
+                            ref = (d, [mirror[2], 'T'])
                 if not ref:
                     break
                 if is_in:
@@ -279,6 +314,7 @@ def shell_model(draw, force=None, max_ports=6, collide=False):  # pylint: disabl
     root = assemble(decls, scopes, layout)
     for _, e in decls:
         e.pop('distractor', None)
+        e.pop('mirror', None)
     return {'model': {'root': root, 'wd': '/work'}, 'enc': list(enc_scope) + [enc_name],
             'enc_kind': enc['k'], 'features': sorted(feats)}
 
